@@ -83,11 +83,14 @@ def c02(run):
     flav += [{"flavour": "c99", "yymore": True, "reject": True}, {"flavour": "c99", "yymore": True, "array": True},
              {"flavour": "c99", "array": True, "reject": True}, {"flavour": "c99", "tbl": "-CF", "userread": False},
              {"flavour": "c99", "tbl": "-Cf", "yymore": True, "userwrap": True}, {"flavour": "c99", "tbl": "-Cm", "interactive": False}]
+    # the C++ lexer class (cpp-flex.skl under M4_MODE_CXX_ONLY, FlexLexer.h): the scanner is an object, input through LexerInput()
+    flav += [{"flavour": "cxx", "yymore": True, "reject": True}, {"flavour": "cxx", "tbl": "-Cf", "userwrap": True},
+             {"flavour": "cxx", "userread": False}, {"flavour": "cxx", "interactive": False, "stack": True, "tbl": "-Ca"}]
     srcs = hand[:3] + [s for s in core if s["profile"] in ("mix", "nul", "sc", "trail")]
     cases = units.product_unit(run, fd, srcs, flav, tag="flavours", san=True)
     units.trace_unit(run, cases, rng, per_case=16 if q else 60, tag="flavtraces", full_cover=40 if q else 200)
     run.assumptions += ["go back end is outside the property (not a documented back end)",
-                        "C++ lexer class: see checks C12/C19 (own harness)"]
+                        "C++ lexer class: no in-memory buffers, no %array (not offered by that interface)"]
 
 
 @check("C04")
@@ -99,7 +102,8 @@ def c04(run):
     srcs = [s for s in srcs if s.get("profile") or "nul" in s.get("name", "")]
     cfgs = tbl_cfgs(["", "-C", "-Cf", "-CF", "-Cfe", "-CFe", "-Cfa"], inter=(None, False)) + tbl_cfgs(["", "-Cm"], inter=(None, False), reject=(True,))
     cfgs += [{"flavour": "c99", "tbl": t} for t in ("", "-Cf", "-CF", "-Cfe")] + [{"flavour": "c99", "interactive": False, "reject": True},
-                                                                                   {"flavour": "c99", "array": True, "yymore": True}]
+                                                                                   {"flavour": "c99", "array": True, "yymore": True}, {"flavour": "cxx"}, {"flavour": "cxx", "tbl": "-Cf", "interactive": False},
+             {"flavour": "c99", "userread": False, "extra_opts": "always-interactive"}, {"userread": False, "extra_opts": "always-interactive"}]
     cases = units.product_unit(run, fd, srcs, cfgs, tag="product", san=True)
 
     def nul_inputs(c, rng, n):
@@ -151,6 +155,10 @@ def c07(run):
         return base + [bytes(rng.choice(al) for _ in range(rng.randint(1, 10))) for _ in range(n - len(base))]
     units.trace_unit(run, [c for c in acases if c.status == "ok"], rng, per_case=16 if q else 60, tag="autoreject",
                      inputs_fn=nulrich, bufsizes=(0, 0, 4), full_cover=40 if q else 200)
+    # many more small rule sets, tables only: the order of the accepting lists (yy_acclist) against the ordered
+    # accepting sets of the specification, in every product state
+    more = [x for x in rulesets.random_family(run.seed + 7919, 240 if q else 1500) if x["profile"] in ("lit", "ops", "ccl", "rep", "grp", "dot", "ref", "posix", "mix", "trail")]
+    units.product_unit(run, fd, more, [{"tbl": "", "reject": True}], tag="acclists")
     # REJECT together with -Cf/-CF must be refused
     units.product_unit(run, fd, srcs[:6], tbl_cfgs(["-Cf", "-CF", "-Cfe"], reject=(True,)), tag="refusal")
 
@@ -258,7 +266,7 @@ def c08(run):
         for fl in ("nr", "r"):
             cfgs.append({"flavour": fl, "array": arr, "yymore": True})
     cfgs.append({"tbl": "-Cf", "yymore": True})
-    cfgs += [{"flavour": "c99", "yymore": True}, {"flavour": "c99", "yymore": True, "array": True}]
+    cfgs += [{"flavour": "c99", "yymore": True}, {"flavour": "c99", "yymore": True, "array": True}, {"flavour": "cxx", "yymore": True}]
     cases = units.product_unit(run, fd, srcs, cfgs, tag="product", san=True)
     def arrayless_probe(sub):
         src = rulesets.handwritten()[0]
@@ -285,7 +293,7 @@ def c09(run):
     srcs = fam(run, profiles=("lit", "dot", "ccl", "posix", "setop", "grp", "ref", "trail", "anch", "mix"), core=2 if q else 10, rnd=30)
     srcs += newline_forms()
     cfgs = [{"yymore": True}, {"flavour": "r", "yymore": True}, {"reject": True, "interactive": False},
-            {"array": True, "yymore": True}, {"yylineno": "no"}, {"tbl": "-Cf"}, {"flavour": "c99", "yymore": True, "reject": True}]
+            {"array": True, "yymore": True}, {"yylineno": "no"}, {"tbl": "-Cf"}, {"flavour": "c99", "yymore": True, "reject": True}, {"flavour": "cxx", "yymore": True}]
     cases = units.product_unit(run, fd, srcs, cfgs, tag="product", san=True)
 
     def nl_inputs(c, rng, n):
@@ -359,7 +367,7 @@ def c10(run):
     q = run.tier == "quick"
     srcs = fam(run, profiles=("sc3", "sc", "lit", "trail", "anch", "mix"), core=3 if q else 10, rnd=40)
     cfgs = [{"userwrap": True}, {"userwrap": True, "flavour": "r"}, {"userwrap": False}, {"userwrap": True, "tbl": "-Cf"},
-            {"userwrap": True, "reject": True, "interactive": False}, {"userwrap": True, "flavour": "c99"}]
+            {"userwrap": True, "reject": True, "interactive": False}, {"userwrap": True, "flavour": "c99"}, {"userwrap": True, "flavour": "cxx"}]
     cases = units.product_unit(run, fd, srcs, cfgs, tag="product", san=True)
     ok = [c for c in cases if c.status == "ok"]
     units.trace_unit(run, ok, rng, per_case=16 if q else 60, tag="eof", job_filter=buffer_jobs("eof"), scripts=False)
@@ -373,7 +381,7 @@ def c11(run):
     mc = units.model_async(run, invariants=('Conservation',), properties=('Isolation',))
     srcs = fam(run, profiles=("lit", "sc", "ccl", "anch", "nul", "mix"), core=3 if q else 10, rnd=40)
     cfgs = [{"userwrap": False}, {"userwrap": True}, {"userwrap": False, "flavour": "r"}, {"userwrap": True, "flavour": "r", "tbl": "-Cf"},
-            {"userwrap": True, "flavour": "c99"}]
+            {"userwrap": True, "flavour": "c99"}, {"userwrap": True, "flavour": "cxx"}]
     cases = units.product_unit(run, fd, srcs, cfgs, tag="product", san=True)
     ok = [c for c in cases if c.status == "ok"]
     units.trace_unit(run, ok, rng, per_case=20 if q else 80, tag="buffers", job_filter=buffer_jobs("buf"), scripts=False)
@@ -390,7 +398,7 @@ def c03(run):
     #     needed (strictread), for interactive and batch scanners, buffer sizes 1..64 and every read-size pattern
     cfgs = [{"interactive": True}, {"interactive": False}, {"tbl": "-Cf"}, {"tbl": "-CF"},
             {"reject": True, "interactive": True}, {"flavour": "r", "interactive": True},
-            {"flavour": "c99", "interactive": True}, {"flavour": "c99", "interactive": False, "tbl": "-Cf"}]
+            {"flavour": "c99", "interactive": True}, {"flavour": "c99", "interactive": False, "tbl": "-Cf"}, {"flavour": "cxx", "interactive": True}]
     cases = units.product_unit(run, fd, srcs, cfgs, tag="product", san=True)
     ok = [c for c in cases if c.status == "ok"]
 
@@ -408,7 +416,8 @@ def c03(run):
     # (b) the scanner's own YY_INPUT (stdio) and in-memory delivery: same specification, same tokens
     cfgs2 = [{"userread": False}, {"userread": False, "interactive": False}, {"userread": False, "tbl": "-Cf"},
              {"userread": False, "extra_opts": "always-interactive"}, {"userread": False, "extra_opts": "always-interactive", "flavour": "r", "tbl": "-Ca"},
-             {"userread": False, "flavour": "c99"}, {"userread": False, "flavour": "c99", "extra_opts": "always-interactive"}]
+             {"userread": False, "flavour": "c99"}, {"userread": False, "flavour": "c99", "extra_opts": "always-interactive"},
+             {"userread": False, "flavour": "cxx"}, {"userread": False, "flavour": "cxx", "interactive": True}]
     cases2 = units.product_unit(run, fd, srcs[:40 if q else 200], cfgs2, tag="stdio", san=True)
 
     def mem_delivery(c, job):
@@ -444,7 +453,7 @@ def c13(run):
     cfgs = [{"tbl": t, "heap": True, "yymore": True} for t in ("", "-C", "-Cf", "-CF", "-Cfe", "-Ca")] + \
            [{"reject": True, "heap": True, "yymore": True, "array": True}, {"flavour": "r", "heap": True, "yymore": True, "userwrap": True},
             {"flavour": "r", "heap": True, "reject": True, "array": True}, {"flavour": "c99", "heap": True, "yymore": True, "userwrap": True},
-            {"flavour": "c99", "heap": True, "reject": True, "array": True}]
+            {"flavour": "c99", "heap": True, "reject": True, "array": True}, {"flavour": "cxx", "heap": True, "yymore": True, "userwrap": True}]
     cases = units.product_unit(run, fd, srcs, cfgs, tag="product", san=True)
     ok = [c for c in cases if c.status == "ok"]
     # (ii) API histories under ASan/UBSan with the allocation ledger: edits, stack growth, buffers, destroy and reuse
@@ -624,7 +633,11 @@ def c18(run):
     valid = _valid_specs(run, 8 if q else 40)
     # a rule set large enough to make the generator reallocate its nxt/chk, DFA and NFA arrays
     kw = b"%option noyywrap\n%%\n" + b"".join(b"%s  return %d;\n" % (("kw%dx%d" % (i, i * 7919 % 1000)).encode(), i % 200 + 1) for i in range(1800)) + b"[a-z0-9]+ return 999;\n.|\\n ;\n%%\nint main(void){return 0;}\n"
-    big = [("keywords-1800", kw, None)]
+    # many character classes and {+} / {-} results: the class table (ccltbl) is reallocated while classes are being built
+    rr = random.Random(4711)
+    def cls(): return "[" + "".join(sorted(set(rr.choice("abcdefghijklmnopqrstuvwxyzABCDEFGHIJKLMNOPQRSTUVWXYZ0123456789") for _ in range(rr.randint(6, 14))))) + "]"
+    ccl = b"%option noyywrap\n%%\n" + "".join("%s{+}%s%s  return %d;\n" % (cls(), cls(), rr.choice(["", "+", "{-}[aeiou]"]), i + 1) for i in range(90)).encode() + b".|\\n ;\n%%\nint main(void){return 0;}\n"
+    big = [("keywords-1800", kw, None), ("classes-90", ccl, None)]
     ENVS = [("base", {}, fd, None), ("perturb-a5", {"MALLOC_PERTURB_": "165"}, fd, None), ("perturb-5a", {"MALLOC_PERTURB_": "90"}, fd, None),
             ("arena1", {"MALLOC_ARENA_MAX": "1", "MALLOC_TOP_PAD_": "1"}, fd, None), ("bigenv", {"VERIF_PAD": "x" * 60000}, fd, None),
             ("cwd", {}, fd, "/tmp"), ("asan-build", {}, fda, None), ("stdout", {}, fd, None), ("file-only", {}, fd, None),
@@ -632,7 +645,7 @@ def c18(run):
     OPTS = [[], ["-Cf"], ["-CF"], ["-Cem"], ["-C"], ["-R"], ["-i"], ["-Ca"]]
     jobs = []
     for name, text, _ in valid + big:
-        for o in (rng.sample(OPTS, 3 if q else len(OPTS)) if name != "keywords-1800" else [[], ["-Cf"]]):
+        for o in (rng.sample(OPTS, 3 if q else len(OPTS)) if name not in ("keywords-1800", "classes-90") else [[], ["-Cf"]]):
             for en, env, f, cwd in ENVS:
                 jobs.append(dict(name=name, text=text, args=o, env=env, en=en, fd=f, cwd=cwd,
                                  want=("scanner", "header", "tables") if en not in ("stdout", "file-only", "stdout-named") else ("scanner",),
@@ -684,8 +697,9 @@ def c20(run):
         core = [a + " " + b for a in ("'", "\\", "`'", "/*", "//", "*/", "#", "{}") for b in ("[[", "]]", "]]]", "[[[", "$1", "m4_dnl")]
         texts = list(toks) + core + pairs[:120]
     jobs = [(t, False, ()) for t in texts] + [(t, True, ()) for t in toks[:8]] + [(t, False, ("-Cf",)) for t in toks[:6]]
+    jobs = [j + (False,) for j in jobs] + [(t, False, (), True) for t in toks[:10]]      # (the last ones: specification given as two input files)
     with cf.ThreadPoolExecutor(units.NCPU) as ex:
-        res = list(ex.map(lambda j: U.observe(fd, j[0], noline=j[1], cfgargs=j[2]), jobs))
+        res = list(ex.map(lambda j: U.observe(fd, j[0], noline=j[1], cfgargs=j[2], split=j[3]), jobs))
     obs = []; wds = []
     for o, wd in res:
         obs += o; wds.append(wd)
@@ -864,7 +878,8 @@ def c12(run):
     srcs = fam(run, profiles=("lit", "ops", "sc", "trail", "mix"), core=1, rnd=6 if q else 30, hand=True)[:10 if q else 50]
     cases = units.product_unit(run, fd, srcs, [{"flavour": "r", "reject": True, "yymore": True, "instances": True, "stack": False},
                                                {"flavour": "r", "reject": True, "yymore": True, "instances": True, "stack": False, "tablesfile": True},
-                                               {"flavour": "r", "reject": True, "yymore": True, "instances": True, "stack": False, "heap": True}],
+                                               {"flavour": "r", "reject": True, "yymore": True, "instances": True, "stack": False, "heap": True},
+                                               {"flavour": "r", "reject": True, "yymore": False, "instances": True, "stack": False}],
                                tag="product", san=True)
     ok = [c for c in cases if c.status == "ok"]
     wd = os.path.join(run.work, "inst"); os.makedirs(wd, exist_ok=True)
@@ -874,7 +889,7 @@ def c12(run):
     # a ThreadSanitizer build of each scanner for the threaded runs
     def tsan(c):
         exe = c.gen["exe"] + ".tsan"
-        q_ = subprocess.run(["gcc", "-O1", "-g", "-w", "-D_GNU_SOURCE", "-fsanitize=thread", "-DVF_REJECT", "-DVF_YYMORE"] + (["-DVF_TABLESFILE"] if c.cfg.get("tablesfile") else []) +
+        q_ = subprocess.run(["gcc", "-O1", "-g", "-w", "-D_GNU_SOURCE", "-fsanitize=thread"] + (["-DVF_TABLESFILE"] if c.cfg.get("tablesfile") else []) +
                             ["-I", fd, "-o", exe, c.gen["c"], "-lpthread"],
                             stdout=subprocess.PIPE, stderr=subprocess.STDOUT, text=True)
         c.tsan = exe if q_.returncode == 0 else None
